@@ -60,12 +60,18 @@ def check_tables(m, viol, desc, after):
                 bad.append(f"recording of {s} refers to row {int(i)} which does not exist")
             if s not in comp_states + edge_states:
                 bad.append(f"recording of unknown state {s}")
+            elif s in nodes.columns and 0 <= int(i) < n and nodes[s].isna().to_numpy()[int(i)]:
+                bad.append(f"recording of {s} on compartment {int(i)}, where no channel has this state (NaN)")
     for key, inds in m.external_inds.items():
         lim = ne if key in edge_states else n
         if len(inds) != len(m.externals[key]):
             bad.append(f"externals[{key}] has {len(m.externals[key])} rows but {len(inds)} indices")
         if any(not (0 <= int(i) < lim) for i in np.asarray(inds)):
             bad.append(f"input {key} refers to a row that does not exist")
+        elif key not in ("i", "v") and key not in comp_states + edge_states:
+            bad.append(f"clamp of unknown state {key}")
+        elif key in nodes.columns and key not in ("i", "v") and any(nodes[key].isna().to_numpy()[int(i)] for i in np.asarray(inds)):
+            bad.append(f"clamp of {key} on a compartment where no channel has this state (NaN)")
     for g, rows in m.groups.items():
         if any(not (0 <= int(i) < n) for i in rows):
             bad.append(f"group {g} refers to a row that does not exist")
@@ -77,6 +83,10 @@ def check_tables(m, viol, desc, after):
         lim = ne if key in m.edges.columns else n
         if any(not (0 <= int(i) < lim) for i in np.asarray(inds).reshape(-1)):
             bad.append(f"trainable {key} refers to a row that does not exist")
+        elif key not in nodes.columns and key not in m.edges.columns:
+            bad.append(f"trainable {key} refers to a parameter that does not exist")
+        elif key in nodes.columns and all(nodes[key].isna().to_numpy()[int(i)] for i in np.asarray(inds).reshape(-1)):
+            bad.append(f"trainable {key} only covers compartments where no channel has this parameter (NaN)")
     for b in bad:
         viol.append(dict(desc, kind="tables are inconsistent: " + b, after_operation=after))
     return not bad
@@ -581,6 +591,8 @@ def run(ctx):
         except Exception as ex:
             import traceback
             viol.append({"kind": "network history raised", "error": repr(ex)[:300], "trace": traceback.format_exc()[-500:]})
+    import regress
+    evals += regress.run("C19", viol)
     for v in viol:
         v.setdefault("finding_class", None)
     return {"evaluations": evals, "distinct_nontrivial": len(distinct),
